@@ -10,7 +10,8 @@ use crate::mutant::{self, N_CLASSES};
 use crate::pcm::Rng;
 use crate::refdec::{self, Cfg};
 use crate::util::{guarded, hexbytes, measure_alloc};
-use flac_codec::decode::{FlacStreamReader, verify_reader};
+use flac_codec::byteorder::LittleEndian;
+use flac_codec::decode::{FlacByteReader, FlacChannelReader, FlacSampleReader, FlacStreamReader, verify_reader};
 use flac_codec::encode::{SeekTableInterval, generate_seektable};
 use flac_codec::metadata::Streaminfo;
 use flac_codec::stream::{Frame, FrameHeader, FrameIterator};
@@ -89,13 +90,53 @@ pub fn exercise_file(bytes: &[u8], out: &mut Outcome) {
         ("FlacSampleIterator", ReaderKind::SampleIter, 0),
     ] {
         t.run(what, || {
-            let (n, err) = codec::drain_with(SegReader::new(bytes.to_vec()), kind, rs)?;
+            let (n, err) = codec::drain_with(SegReader::new(bytes.to_vec()), kind, rs, bytes.len())?;
             match err {
                 Some(e) if n == 0 => Err(e),
                 _ => Ok(n),
             }
         });
     }
+    // seeking is a decoding entry point too: a hostile SEEKTABLE, STREAMINFO total or frame must
+    // give Ok or Err for any target, and a read after the seek likewise
+    t.run("FlacSampleReader::seek", || {
+        let mut rd = FlacSampleReader::new_seekable(Cursor::new(bytes)).map_err(|e| e.to_string())?;
+        let mut ok = 0;
+        for target in [1u64, 37, 1 << 20, u64::MAX >> 1, 0] {
+            if rd.seek(target).is_ok() {
+                ok += 1;
+            }
+            if let Ok(b) = rd.fill_buf() {
+                let n = b.len();
+                rd.consume(n.min(5));
+            }
+        }
+        Ok(ok)
+    });
+    t.run("FlacChannelReader::seek", || {
+        let mut rd = FlacChannelReader::new_seekable(Cursor::new(bytes)).map_err(|e| e.to_string())?;
+        let mut ok = 0;
+        for target in [2u64, 1000, u64::MAX, 0] {
+            if rd.seek(target).is_ok() {
+                ok += 1;
+            }
+            let _ = rd.fill_buf().map(|c| c.len());
+        }
+        Ok(ok)
+    });
+    t.run("FlacByteReader::seek", || {
+        use std::io::{Read, Seek, SeekFrom};
+        let mut rd = FlacByteReader::<_, LittleEndian>::new_seekable(Cursor::new(bytes)).map_err(|e| e.to_string())?;
+        let mut ok = 0;
+        let mut buf = [0u8; 11];
+        for target in [SeekFrom::Start(3), SeekFrom::End(-1), SeekFrom::Current(7), SeekFrom::Start(u64::MAX >> 2), SeekFrom::End(i64::MIN), SeekFrom::Current(-2), SeekFrom::Start(0)] {
+            if rd.seek(target).is_ok() {
+                ok += 1;
+            }
+            let _ = rd.read(&mut buf);
+        }
+        Ok(ok)
+    });
     t.run("verify_reader", || verify_reader(SegReader::new(bytes.to_vec())).map(|_| 1).map_err(|e| e.to_string()));
     t.run("FrameIterator+Subframe::decode", || {
         let it = FrameIterator::new(SegReader::new(bytes.to_vec())).map_err(|e| e.to_string())?;
@@ -108,12 +149,12 @@ pub fn exercise_file(bytes: &[u8], out: &mut Outcome) {
                     n += 1;
                 }
                 Err(e) => {
+                    // keep going: an iterator that repeats an error forever hangs every `for` loop over it
                     first_err.get_or_insert(e.to_string());
-                    break;
                 }
             }
             if i > bytes.len() + 16 {
-                panic!("FV_HANG: FrameIterator yields more frames than the input has bytes");
+                panic!("FV_HANG: FrameIterator yields more items than the input has bytes");
             }
         }
         match first_err {
@@ -128,14 +169,20 @@ pub fn exercise_file(bytes: &[u8], out: &mut Outcome) {
     });
     t.run("metadata::read_blocks", || {
         let mut n = 0;
+        let mut first_err = None;
         for b in flac_codec::metadata::read_blocks(SegReader::new(bytes.to_vec())) {
-            b.map_err(|e| e.to_string())?;
+            if let Err(e) = b {
+                first_err.get_or_insert(e.to_string());
+            }
             n += 1;
             if n > bytes.len() as u64 + 16 {
-                panic!("FV_HANG: read_blocks yields more blocks than the input has bytes");
+                panic!("FV_HANG: read_blocks yields more items than the input has bytes");
             }
         }
-        Ok(0)
+        match first_err {
+            Some(e) => Err(e),
+            None => Ok(0),
+        }
     });
     if t.deep {
         t.out.nontrivial = true;
